@@ -72,6 +72,24 @@ func ParseListing(listing string) (prog []Ins, namespaces []string) {
 	return
 }
 
+// vocabulary is the instruction set of XPathExec.tla.  The names come from the debug text of
+// the machine listing, which the implementation is free to reword: a listing with a name
+// outside the vocabulary is not compared with the specification's program and its runs are
+// not traced (results and data-tree requests are still compared).
+var vocabulary = map[string]bool{"numpush": true, "litpush": true, "bltin": true, "name": true, "root": true, "dotdot": true,
+	"add": true, "sub": true, "mul": true, "div": true, "mod": true, "negate": true, "eq": true, "ne": true, "lt": true, "le": true,
+	"gt": true, "ge": true, "and": true, "or": true, "evalLocPath": true, "store": true, "PredicatesStart": true,
+	"PredicatesEnd": true, "PREDSTART": true, "PREDEND": true, "pathsetcurrent": true, "deref": true}
+
+func Recognised(prog []Ins) bool {
+	for _, in := range prog {
+		if !vocabulary[in.I] {
+			return false
+		}
+	}
+	return true
+}
+
 // Val is the interchange form of a value (VB/VN/VS/VAbsent/VMulti of XPathValues.tla).
 type Val struct {
 	T  string   `json:"t"`
